@@ -399,22 +399,21 @@ fn run_case(ctx: &Ctx, case: &Case, coords: &dyn Fn() -> J, rep: &mut Report) {
         rep.count("history_mode=one-reader");
         // all calls' bytes concatenated in one reader; as many decode calls as pictures
         let mut all = vec![];
-        let mut skip = false;
         for c in &case.calls {
-            if let Some((w, h)) = declared_size(&c.bytes, case.sorenson) {
-                if w as u64 * h as u64 > limit {
-                    skip = true;
-                }
-            }
             all.extend_from_slice(&c.bytes);
             fp = fnv64_more(fp, &c.bytes);
         }
-        if skip {
-            rep.count("out_of_domain_size");
-            return;
-        }
-        let mut rd = H263Reader::from_source(&all[..]);
+        let (src, _data, delivered) = crate::sut::CountRead::new(&all);
+        let mut rd = H263Reader::from_source(src);
         for (k, c) in case.calls.iter().enumerate() {
+            // domain guard at the position the next header will really be read from
+            let at = crate::sut::abs_pos(&rd, &delivered);
+            if let Some((w, h)) = declared_size_at(&all, at, case.sorenson) {
+                if w as u64 * h as u64 > limit {
+                    rep.count("out_of_domain_size");
+                    return;
+                }
+            }
             let _ = h263_rs::verif::take_mb_log();
             let out = dec.decode_with(&mut rd);
             let log = h263_rs::verif::take_mb_log();
@@ -480,6 +479,11 @@ pub fn case(ctx: &Ctx, shard: usize, index: u64, rep: &mut Report) {
     let coords = || crate::mon::coords("C01", ctx, shard, index);
     if shard == 0 && index < 4 {
         rep.sample(8, || J::obj().set("sorenson", c.sorenson).set("scalability", c.scal).set("one_reader", c.one_reader).set("calls", J::Arr(c.calls.iter().map(|k| J::obj().set("class", k.class).set("len", k.bytes.len()).set("bytes_prefix", hex(&k.bytes[..k.bytes.len().min(20)]))).collect())));
+    }
+    if std::env::var("HV_DUMP").is_ok() {
+        for k in &c.calls {
+            eprintln!("DUMP sorenson={} scal={} one_reader={} class={} declared={:?} bytes={}", c.sorenson, c.scal, c.one_reader, k.class, declared_size(&k.bytes, c.sorenson), hex(&k.bytes));
+        }
     }
     run_case(ctx, &c, &coords, rep);
 }
